@@ -92,7 +92,7 @@ struct Runner
         MVec m;
         m.exists = true;
         m.cap = rng.chance(1, 12) ? 0 : 1 + static_cast<size_t>(rng.below(max_cap));
-        for (size_t i = 0; i < Cfg::N_FIXED; ++i) m.fixed.push_back(rng.chance(1, 6) ? 0 : static_cast<size_t>(rng.below(5)));
+        for (size_t i = 0; i < Cfg::N_FIXED; ++i) m.fixed.push_back(rng.chance(1, 6) ? 0 : static_cast<size_t>(rng.below(max_span > 20 ? max_span : 5)));  // long spans only in the 'big' units (blocks of 16 KiB and more, offsets of 256 and more inside an element)
         m.arena = 1;
         // plan the elements first: the vector is constructed for exactly their payload
         const int style = static_cast<int>(rng.below(5));
